@@ -79,6 +79,11 @@ func main() {
 		case "--race-worker":
 			c19RaceWorker()
 			return
+		case "--solo":
+			if i+1 < len(os.Args) {
+				c19SoloMain(os.Args[i+1])
+			}
+			return
 		case "--replay":
 			i++
 			if i < len(os.Args) {
